@@ -189,7 +189,7 @@ pub fn work_main(a: &WorkArgs) {
     let mut transitions: HashSet<u64> = HashSet::new();
     for i in a.from..a.to {
         let seed = scenario_seed(a.verif_seed, i);
-        let mut sc: Scenario = generate(&g, seed);
+        let mut sc: Scenario = crate::scenario::generate_at(&g, seed, Some(i));
         if a.no_yield {
             sc.yield_mask = 0;
         }
@@ -687,7 +687,7 @@ pub fn batch_main(b: &BatchArgs) -> BatchOut {
         seen_classes.push(target.clone());
         let g = GenCtx::new(&pool, &refs);
         let regen = |i: u64, no_yield: bool| -> Scenario {
-            let mut sc = generate(&g, scenario_seed(b.verif_seed, i));
+            let mut sc = crate::scenario::generate_at(&g, scenario_seed(b.verif_seed, i), Some(i));
             if no_yield {
                 sc.yield_mask = 0;
             }
